@@ -25,7 +25,7 @@ POSSIBLE = 'possible_initialization_problem'
 # -- mini-language -------------------------------------------------------------------------------------
 # ('a', var) assignment | ('r', var) read | ('if', body, orelse) | ('while', body) | ('for', body)
 
-def programs(max_atoms, variables=('x',), loops=False, depth=2, empty_bodies=False):
+def programs(max_atoms, variables=('x',), loops=False, depth=2, empty_bodies=False, call=False):
     """All statement lists with at most max_atoms assign/read atoms."""
     def stmts(budget, d):
         # yields (list_of_statements, atoms_used)
@@ -40,6 +40,8 @@ def programs(max_atoms, variables=('x',), loops=False, depth=2, empty_bodies=Fal
         for v in variables:
             yield ('a', v), 1
             yield ('r', v), 1
+        if call:
+            yield ('call', 'f'), 1
         if d > 0 and budget >= 1:
             for body, u1 in stmts(budget, d - 1):
                 for orelse, u2 in stmts(budget - u1, d - 1):
@@ -80,14 +82,20 @@ def number_reads(prog):
     def go(stmts):
         out = []
         for s in stmts:
-            if s[0] in ('a', 'r'):
+            if s[0] in ('a', 'r', 'call'):
                 out.append((s[0], s[1], next(counter)))
+            elif s[0] == 'def':
+                out.append(('def', s[1], go(s[2]), next(counter)))
             elif s[0] == 'if':
                 out.append(('if', go(s[1]), go(s[2]), next(counter)))
             else:
                 out.append((s[0], go(s[1]), next(counter)))
         return out
     return go(prog)
+
+
+def has_call(prog):
+    return "'call'" in repr(prog)
 
 
 def has_loop(prog):
@@ -103,6 +111,11 @@ def render(prog, indent=0):
             out.append('%s%s = 0' % (pad, s[1]))
         elif s[0] == 'r':
             out.append('%sprint(%s)' % (pad, s[1]))
+        elif s[0] == 'call':
+            out.append('%s%s()' % (pad, s[1]))
+        elif s[0] == 'def':
+            out.append('%sdef %s():' % (pad, s[1]))
+            out += render(s[2], indent + 1)
         elif s[0] == 'if':
             out.append(pad + 'if c:')
             out += render(s[1], indent + 1) or [pad + '    pass']
@@ -121,11 +134,18 @@ def render(prog, indent=0):
 # -- oracle: enumerate execution paths ------------------------------------------------------------------
 def executions(prog):
     """All event traces [(kind, var, site)] of a numbered program (loops run 0, 1 or 2 times)."""
+    functions = {}
+
     def go(stmts):
         traces = [[]]
         for s in stmts:
             if s[0] in ('a', 'r'):
                 traces = [t + [s] for t in traces]
+            elif s[0] == 'def':
+                functions[s[1]] = s[2]      # top-level, before any call (by construction of the sweep)
+            elif s[0] == 'call':
+                alts = go(functions[s[1]])
+                traces = [t + a for t in traces for a in alts]
             elif s[0] == 'if':
                 alts = go(s[1]) + go(s[2])
                 traces = [t + a for t in traces for a in alts]
@@ -177,9 +197,12 @@ class AbstractTifa:
         core_ci = sym.find_class(CORE, 'TifaCore')
         vis_ci = sym.find_class(VISITOR, 'Tifa')
         self.core_methods = dict(core_ci.methods)
-        self.vis_methods = {k: vis_ci.methods[k] for k in ('visit_If', 'visit_While', 'visit_For', 'visit_statements')
+        self.vis_methods = {k: vis_ci.methods[k] for k in ('visit_If', 'visit_While', 'visit_For', 'visit_statements',
+                                                           'visit_FunctionDef', 'make_function', 'visit_Call',
+                                                           'apply_decorators')
                             if k in vis_ci.methods}
         self.path_methods = dict(sym.find_class(CONTEXTS, 'NewPath').methods)
+        self.scope_methods = dict(sym.find_class(CONTEXTS, 'NewScope').methods)
         self.state_methods = dict(sym.find_class(STATE, 'State').methods)
         self.ident_methods = dict(sym.find_class(IDENT, 'Identifier').methods)
         for name in ('store_variable', 'load_variable', 'merge_paths', 'combine_states', 'match_rso', 'search_parents',
@@ -210,11 +233,28 @@ class AbstractTifa:
         me.attrs['method:locate'] = lambda *a: cur['site']
         fd.calls['is_subtype'] = lambda a, b: True
         fd.calls['AnyType'] = lambda: 'AnyType'
-        fd.calls['isinstance'] = lambda o, t: False
+        TYPE_NAMES = ('BuiltinConstructorType', 'FunctionType', 'ClassType', 'IntType', 'FloatType', 'NumType',
+                      'ListType', 'DictType', 'SetType', 'TupleType', 'InstanceType', 'StrType', 'BoolType', 'NoneType',
+                      'LiteralValue')
+
+        def _isinstance(o, t):
+            ts = t if isinstance(t, tuple) else (t,)
+            return isinstance(o, Obj) and any(isinstance(x, str) and o._name == x for x in ts)
+        fd.calls['isinstance'] = _isinstance
+
+        def _function_type(name, definition=None, **k):
+            return Obj('FunctionType', name=name, definition=definition)
+        fd.calls['FunctionType'] = _function_type
+        fd.calls['NoneType'] = lambda: Obj('NoneType')
+        fd.calls['NewScope'] = lambda *a, **k: fd.instantiate('NewScope', self.scope_methods, a, k, closed=False)
         fd.calls['State'] = lambda *a, **k: fd.instantiate('State', self.state_methods, a, k, closed=False)
         fd.calls['Identifier'] = lambda *a, **k: fd.instantiate('Identifier', self.ident_methods, a, k, closed=False)
         fd.calls['NewPath'] = lambda *a, **k: fd.instantiate('NewPath', self.path_methods, a, k, closed=False)
-        fd.resolver = lambda name: {'ast.Pass': 'ast.Pass', 'ast': 'ast'}[name]
+        consts = {'ast.Pass': 'ast.Pass', 'ast': 'ast', 'ast.Module': 'ast.Module',
+                  # CPython >= 3.8, not Skulpt: the platform this checker (and the pinned suite) runs on
+                  'IS_AT_LEAST_PYTHON_38': True, 'IS_SKULPT': False}
+        consts.update({n: n for n in TYPE_NAMES})
+        fd.resolver = lambda name: consts[name]
 
         def mk_node(s):
             if s[0] == 'if':
@@ -223,6 +263,14 @@ class AbstractTifa:
             if s[0] in ('while', 'for'):
                 return Obj(s[0], kind=s[0], test=Obj('const', kind='const'), body=[mk_node(x) for x in s[1]],
                            orelse=[], site=s[2], iter=Obj('const', kind='const'), target=Obj('const', kind='const'))
+            if s[0] == 'def':
+                return Obj('FunctionDef', kind='def', name=s[1], body=[mk_node(x) for x in s[2]], site=s[3],
+                           returns=None, decorator_list=[],
+                           args=Obj('arguments', posonlyargs=[], args=[], defaults=[], kwarg=None, vararg=None,
+                                    kwonlyargs=[], kw_defaults=[]))
+            if s[0] == 'call':
+                return Obj('Call', kind='call', func=Obj('Name', kind='name', var=s[1], site=s[2]), args=[],
+                           keywords=[], site=s[2])
             return Obj(s[0], kind=s[0], var=s[1], site=s[2])
 
         def visit(node):
@@ -242,11 +290,20 @@ class AbstractTifa:
                     me.attrs['method:visit_While'](node)
                 elif kind == 'for':
                     me.attrs['method:visit_For'](node)
+                elif kind == 'def':
+                    me.attrs['method:visit_FunctionDef'](node)
+                elif kind == 'call':
+                    return me.attrs['method:visit_Call'](node)
+                elif kind == 'name':
+                    # Tifa.visit_Name in Load context: the type of the loaded state
+                    return me.attrs['method:load_variable'](node.attrs['var']).attrs['type']
             finally:
                 cur['site'] = prev
             return 'AnyType'
         me.attrs['method:visit'] = visit
         me.attrs['method:_visit_collection_loop'] = lambda node: False
+        me.attrs['method:load_root_variable'] = lambda node: None
+        me.attrs['node_chain'] = []
         me.attrs['method:_finish_loop'] = lambda: fd.call_function(self.core_methods['_finish_loop'], [], bound_self=me) \
             if '_finish_loop' in self.core_methods else None
         fd.bind_methods(me, self.core_methods, skip=('locate', '_issue', 'visit'))
@@ -291,9 +348,21 @@ def r5_program_table(ctx, sym, tier):
         progs = uniq(programs(3, ('x',), loops=False, depth=2),
                      programs(2, ('x',), loops=False, depth=2, empty_bodies=True), CURATED)
         loop_progs = [p for p in programs(2, ('x',), loops=True, depth=1) if has_loop(p)]
+    # function sweep: a helper that reads the global, defined first and called at one or more points of an
+    # if/else program (the property's "function calls" clause: a read that is unassigned on some execution of some
+    # call must be reported)
+    bodies = [(R,), (('if', (R,), ()),)]
+    if tier == 'thorough':
+        call_main = [p for p in programs(4, ('x',), loops=False, depth=2, call=True) if has_call(p)]
+        call_progs = [[('def', 'f', b)] + list(p) for b in bodies for p in call_main]
+    else:
+        m3 = [p for p in programs(3, ('x',), loops=False, depth=1, call=True) if has_call(p) and "'a'" in repr(p)]
+        m2 = [p for p in programs(2, ('x',), loops=False, depth=2, call=True) if has_call(p)]
+        call_progs = [[('def', 'f', bodies[0])] + list(p) for p in m3] + \
+                     [[('def', 'f', b)] + list(p) for b in bodies for p in m2]
     n = 0
     bad = {}
-    work = progs + loop_progs
+    work = progs + loop_progs + call_progs
     if tier == 'thorough' and len(work) > 3000:
         results = _parallel(ctx, work)
     else:
@@ -324,6 +393,11 @@ def r5_program_table(ctx, sym, tier):
             if looped:
                 ok = bool(got) if v in ('never', 'sometimes') else True
                 kind = 'missed-uninitialised-read' + (':for' if "'for'" in repr(prog) else ':while')
+            elif has_call(prog):
+                # one read site, several calling contexts: something must be reported iff some context leaves the
+                # name unassigned on some path
+                ok = bool(got) if v in ('never', 'sometimes') else not got
+                kind = 'missed-uninitialised-read:call' if v != 'always' else 'spurious:call'
             else:
                 want = {'always': set(), 'never': None, 'sometimes': {POSSIBLE}}[v]
                 if v == 'never':
@@ -345,16 +419,18 @@ def r5_program_table(ctx, sym, tier):
                     bad.setdefault('unused:spurious', []).append((prog, "%s is read after its last assignment on "
                                                                   "every path but is reported unused" % var))
     ctx.floor('R5', 'programs analysed', n, 300)
-    ctx.info("flow table: %d programs (%d with loops), %d deviating groups" % (n, len(loop_progs), len(bad)))
+    ctx.info("flow table: %d programs (%d with loops, %d with function calls), %d deviating groups" % (
+        n, len(loop_progs), len(call_progs), len(bad)))
     if not bad:
         ctx.ok('R5', 'flow-table', sample={'programs': n})
     for kind, items in sorted(bad.items()):
         items.sort(key=lambda it: len(repr(it[0])))
         prog, why = items[0]
         text = '\n'.join(render(prog))
-        mod = at.vis if ('for' in kind or 'while' in kind) else at.core
+        mod = at.vis if ('for' in kind or 'while' in kind or ':call' in kind) else at.core
         fn = at.vis_methods.get('visit_For') if ':for' in kind else (
-            at.vis_methods.get('visit_While') if ':while' in kind else at.core_methods['merge_paths'])
+            at.vis_methods.get('visit_While') if ':while' in kind else (
+                at.vis_methods.get('visit_Call') if ':call' in kind else at.core_methods['merge_paths']))
         ctx.fail('R5', 'flow:' + kind, mod, fn,
                  "%d of %d small programs deviate (%s); smallest: %s" % (len(items), n, kind, why),
                  "the program\n" + text, function=getattr(fn, '_qualname', None))
